@@ -501,6 +501,34 @@ def type_graph_cases(tier, rng):
     return cases
 
 
+def offset_sources(maxk):
+    """(k, char, files): one project per byte offset k and per 2-, 3- and 4-byte identifier character, in which that
+    character starts at byte offset k of a type name (also below generics), a field name, a command and
+    parameter name, a rename / validator / event-name literal and a directory name"""
+    out = []
+    for k in range(0, maxk + 1):
+        for ch in ("\u00e9", "\u4e2d", "\U0001D4B3"):
+            pre = "a" * max(0, k - 1)
+            ty = ("T" + pre if k else "") + ch + "b" * 60
+            ty2 = ("U" + pre if k else "") + ch + "c" * 8
+            field = ("f" + pre if k else "") + ch + "d" * 10
+            cmd = ("c" + pre if k else "") + ch + "z"
+            par = ("p" + pre if k else "") + ch
+            lit = "x" * k + ch + "y" * 50
+            src = "\n".join([
+                "use serde::{Serialize, Deserialize};", "use std::collections::HashMap;",
+                "#[derive(Debug, Clone, Serialize, Deserialize)]\npub struct %s { pub id: u32, pub back: Option<Box<Holder>> }" % ty,
+                "#[derive(Debug, Clone, Serialize, Deserialize)]\npub enum %s { %s, Other }" % (ty2, ("V" + pre if k else "") + ch),
+                "#[derive(Debug, Clone, Serialize, Deserialize)]\n#[serde(rename_all = \"camelCase\")]\npub struct Holder {",
+                "    #[serde(rename = \"%s\")]\n    #[validate(length(min = 1, message = \"%s\"))]\n    pub %s: Vec<HashMap<String, Option<%s>>>," % (lit, lit, field, ty),
+                "    pub plain: %s,\n    pub pair: (u8, %s),\n    pub nested: HashMap<String, Vec<(u8, Option<%s>)>>,\n    %s: Option<%s>,\n}" % (ty, ty2, ty, "q" + field, ty2),
+                "#[tauri::command]\npub async fn %s(app: tauri::AppHandle, %s: %s, other: Vec<%s>) -> Result<Holder, String> {" % (cmd, par, ty, ty2),
+                "    app.emit(\"%s\", %s { id: 1, back: None }).ok();\n    todo!()\n}" % (lit, ty), ""])
+            d = "m" * k + ch
+            out.append((k, ch, {"lib.rs": src, "%s/inner.rs" % d: "#[tauri::command]\npub fn inner_%s() -> u8 { 0 }\n" % ("i" + pre + ch)}))
+    return out
+
+
 NOT_RUST = [
     "", " ", "\n\n\n", "﻿", "﻿#[tauri::command]\nfn a() {}\n", "#!/usr/bin/env run-cargo-script\nfn main() {}\n",
     "hello world, this is not rust\n", "{\"json\": [1, 2, {\"a\": null}]}\n", "<html><body>é</body></html>\n",
